@@ -13,7 +13,7 @@ EXPLANATION = (
     "R2 (collectors): FromIterator::from_iter and Extend::extend consume their iterator by a next() loop whose only exit is the None edge and in "
     "which every item's entity and amount reach add() on every path; from_iter starts from an empty set and returns the one it filled. R3 (joins): "
     "the shared and mutable impls return the set's own mask with its own storage and fetch with get/get_mut/shared_get_mut of the index parameter; "
-    "the consuming impls move mask and storage out of self and fetch with remove(index) - so each accumulated amount is yielded by value once. W4: "
+    "the consuming impls move mask and storage out of self and fetch with remove(index) - so each accumulated amount is yielded by value once. R4: every impl of RepeatableLendGet over join members (MaybeJoin<T>, the tuples) requires RepeatableLendGet of every member, so the consuming join cannot be made repeat-gettable by wrapping it. W4 (incl. the maybe() and tuple forms): "
     "a by-value change set is not RepeatableLendGet (the by-reference twin is)."
 )
 NOT_DECIDED = "the sums themselves (AddAssign of the amount type, arrival order inside one entity) and the dense storage's value bookkeeping"
